@@ -208,7 +208,7 @@ def replay(path, verbose):
     h = HARNESSES[hname]
     libdir = fmcbuild.build_lib()
     exe = fmcbuild.build_harness(h.get("src", hname), h["kind"], libdir, extra_wraps=h.get("wraps", ()), lib_objs=h.get("objs"), defs=h.get("defs", ()), extra_srcs=h.get("extra_srcs", ()), link_flags=h.get("link_flags", ()), variant=h.get("variant", ""))
-    args = [a for a in info.get("args", "").split() if a.startswith("-D") or a.startswith("-S") or a.startswith("-horizon") or a.startswith("-L") or a == "-focus"]
+    args = [a for a in info.get("args", "").split() if a.startswith("-D") or a.startswith("-S") or a.startswith("-horizon") or a.startswith("-L") or a in ("-focus", "-weakrmw")]
     cmd = [exe] + args + ["-replay=" + path] + (["-v"] if verbose else [])
     r = subprocess.run(cmd, stdout=subprocess.PIPE, stderr=subprocess.STDOUT, text=True)
     print(symbolize(exe, r.stdout))
